@@ -130,6 +130,11 @@ Theorem C04_guard_sources_as_transcribed :
 Proof. exact guard_sources_as_transcribed. Qed.
 Print Assumptions C04_guard_sources_as_transcribed.
 
+(* root.go: --force (default false) is bound to the variable the guards read; nothing else assigns it *)
+Theorem C04_force_flag_binding : force_flag_ok = true.
+Proof. exact force_flag_binding. Qed.
+Print Assumptions C04_force_flag_binding.
+
 (* non-vacuity: the table is not empty, has rows of every kind, hypotheses are satisfiable,
    and all three outcomes occur *)
 Example C04_nonvacuous :
